@@ -158,14 +158,14 @@ theorem jg_initial (e0 : Env) (a : Args) (inv0 : GInv e0.g) (l0 : Loaded0 e0) (h
 
 /-- **A successful build followed by the same build: the second does nothing** - also for steps
     with depfiles / `deps = msvc`.  Hypotheses: no command rewrites its inputs, every step has an
-    output, no ordering cycle; the first invocation succeeds without reloading the manifest; the
+    output; the first invocation succeeds without reloading the manifest; the
     dependencies its finished steps remember at the end are SOURCE files (not produced by any
     step); the files the wanted steps name exist afterwards; the manifest still loads to the same
     graph.  Then the next invocation with the same arguments leaves the world as it is, starts no
     command and reports 0 tasks - for every scheduling behaviour in either invocation. -/
 theorem second_build_does_nothing_deps (w : World) (a : InvArgs) (perms : List (List Nat)) (fin : List (Nat × Term))
     (l : Loader) (e0 : Env) (hl : loadEnv w a.manifestName = .ok (l, e0))
-    (plain : PlainD e0.g) (acyc : Acyclic (schedGraph e0.g)) (hpar : 0 < a.par) (n : Nat)
+    (plain : PlainD e0.g) (hpar : 0 < a.par) (n : Nat)
     (hdone : (build (schedGraph e0.g) (argsOf l a) (choices a.adopt perms fin) e0).2.2 = .done n)
     (hsrc : GoodD (build (schedGraph e0.g) (argsOf l a) (choices a.adopt perms fin) e0).1
               (build (schedGraph e0.g) (argsOf l a) (choices a.adopt perms fin) e0).2.1)
@@ -189,7 +189,7 @@ theorem second_build_does_nothing_deps (w : World) (a : InvArgs) (perms : List (
   have jg := build_done gok (argsOf l a) _ (JG e0) (jd_spec e0 inv0 l0 plain a.adopt perms fin) e0
     (jg_initial e0 (argsOf l a) inv0 l0 hcache0) n hdone
   have j := jg hsrc
-  have hsettled := fun b => build_done_settled gok dok acyc (argsOf l a) hpar (choices a.adopt perms fin) e0 n hdone b
+  have hsettled := fun b => build_done_settled_free gok dok (argsOf l a) hpar (choices a.adopt perms fin) e0 n hdone b
   generalize hr : build (schedGraph e0.g) (argsOf l a) (choices a.adopt perms fin) e0 = r
     at j hdone hcomplete hpresent hw' hsrc hsettled
   obtain ⟨s1, e1, out1⟩ := r
